@@ -95,6 +95,40 @@ def match_variants(peaks, spec, mz_tol):
     return js
 
 
+def py_agg_prob(comp, T, deg):
+    """exact probabilities of the first deg+1 aggregated variants by truncated polynomial powers (binary
+    exponentiation) — an oracle that stays cheap for compositions of thousands of atoms as long as deg is small.
+    Only for elements whose ladder is gap-free and starts at the most abundant isotope (C03's domain)."""
+    def mul(a, b):
+        out = [Fraction(0)] * min(deg + 1, len(a) + len(b) - 1)
+        for i, x in enumerate(a):
+            if x == 0:
+                continue
+            for j, y in enumerate(b):
+                if i + j > deg:
+                    break
+                out[i + j] += x * y
+        return out
+
+    def power(pl, n):
+        res = [Fraction(1)]
+        base = pl[: deg + 1]
+        while n:
+            if n & 1:
+                res = mul(res, base)
+            base = mul(base, base)
+            n >>= 1
+        return res
+    acc = [Fraction(1)]
+    for s, n in comp:
+        isos = T[s]["isos"]
+        pl = [Fraction(0)] * (max(i["shift"] for i in isos) + 1)
+        for i in isos:
+            pl[i["shift"]] = Fraction(i["abundance"])
+        acc = mul(acc, power(pl, n))
+    return acc + [Fraction(0)] * (deg + 1 - len(acc))
+
+
 def corr_lists(peaks, mpeaks, z):
     """impl vs model peak lists.  Variants are about 1/|z| apart, so peaks are aligned by m/z; an aligned pair must
     agree (m/z to 1e-9 relative when it carries >= 1e-9 of the signal, to 1e-6 relative below that — the centre of
@@ -333,6 +367,32 @@ def run_c03_c09(r: Run, prop):
             seen.add((clause, json.dumps(wit)))
             r.violation(clause, wit, f"isotopic_variants({pairs_of(comp)}, {req}, z={z}): {detail}", expected=dl.split("\t")[2][:400] if "\t" in dl else None,
                         observed={"lines": [line], "impl": il[:400]}, model=dl.split("\t")[0][:400], kind=kind)
+    if prop == "C03":
+        # thousands of atoms, a handful of peaks: the exact ratios of the first variants by truncated polynomial powers
+        # in python (the Lean oracle multiplies n times); the product of abundances with counts is near / below the
+        # smallest double here
+        for c, n_req, z in (([("Mg", 3150)], 2, 0), ([("Mg", 3150)], 3, 1), ([("Mg", 3200)], 5, 2), ([("Mg", 2600), ("K", 2000)], 4, 0),
+                            ([("Mg", 3000), ("C", 50)], 3, -1), ([("Si", 9400)], 3, 1), ([("C", 6144), ("H", 12288), ("O", 6144)], 6, 1)):
+            line = f"brain\t{pairs_of(c)}\tn:{n_req}\t{z}\t{fr(PROTON)}\tvec"
+            il = r.impl("brain", [line], stall=120)[0]
+            ip = parse_pattern(il)
+            r.case(("huge-ratio", n_req, z, il.split(" ")[0]), {"line": line[:160], "impl": il[:120]})
+            probs = py_agg_prob(c, T, n_req - 1)
+            tot = sum(probs)
+            why = None
+            if isinstance(ip, str) or len(ip[1]) == 0:
+                why = f"returned {il[:40]}"
+            else:
+                pk = ip[1]
+                want = [p / tot for p in probs if p / tot >= Fraction(2, 10 ** 10)]
+                got = [q[1] for q in pk if q[1] >= Fraction(2, 10 ** 10)]
+                if len(got) != len(want) or not all(close(a, b, rel=1e-9) for a, b in zip(got, want)):
+                    why = (f"intensities {[float(x) for x in got][:4]} but the first {n_req} variants have exact shares "
+                           f"{[float(x) for x in want][:4]}")
+            if why is not None:
+                corr_ok = False
+                r.violation("ratio", {"elements": sorted(s for s, _ in c)[:4], "scale": "huge"},
+                            f"isotopic_variants({pairs_of(c)}, n:{n_req}, z={z}): {why}", observed={"lines": [line], "impl": il[:300]})
     if prop == "C09":
         # compositions far beyond what the exact oracle can expand (the product of the most abundant isotopes'
         # abundances, with the counts, underflows a double): the clauses that need no oracle — non-empty, finite,
